@@ -35,7 +35,8 @@ Theorem C16_case0a_squeeze : forall W s, forallb (fun r => (length r =? ncols W)
 Proof. exact case0a_matvec. Qed.
 Print Assumptions C16_case0a_squeeze.
 
-(* case 0g (scalar weight): every target receives w * vsum(source) = the all-to-all edge list *)
+(* case 0g (scalar weight): every target receives w * vsum(source).  DEFINITIONAL: this statement is `nth i (repeat x n) = x` — it only records
+   that the scalar target variable is broadcast; the content is the next theorem (= the all-to-all edge list) *)
 Theorem C16_scalar_is_w_vsum : forall w s nt i, (i < nt)%nat -> nth i (repeat (w * vsum s) nt) 0 = w * vsum s.
 Proof. exact scalar_is_w_vsum. Qed.
 Print Assumptions C16_scalar_is_w_vsum.
@@ -141,7 +142,7 @@ Print Assumptions C16_run_nonvacuous_dyn.
    faithful model while the classes F1-F3, F5-F7 were unrepaired (the `_before_fix` lemmas below keep the witnesses,
    each under the hypothesis that its switch in Population.v is off); with every repair in (D54-D56, D60, D92, D93 —
    `all_fixed` computes to true) and the weight tolerance modelled on both sides it is a THEOREM, for any unit dynamics:
-   no guard is left.  (F9 is a difference between Connectivity and the explicit circuit's delayed TEMPLATE edges, not
+   no guard is left on Impl = Spec (scope: see the comment above C16_full).  (F9 is a difference between Connectivity and the explicit circuit's delayed TEMPLATE edges, not
    between Impl and this Spec, which delays the source of every edge: see known_findings.d/C16.json.) *)
 Definition C16_full_statement : Prop := forall N units dt rows, wf_net N = true -> wf_units N units = true ->
   pop_run unit_poly N units dt rows = Some (exp_run 0 unit_poly N units dt rows).
@@ -151,10 +152,25 @@ Theorem C16_full_any_unit : forall U N units dt rows, all_fixed = true ->
 Proof. exact pop_run_full. Qed.
 Print Assumptions C16_full_any_unit.
 
+(* SCOPE of C16_full.  It is a statement about the model: Impl (`pop_run`) = Spec (`exp_run`), no guard.  What it does NOT contain:
+   (a) delays: the delayed / gamma-delayed source of an edge is the SAME term on both sides (`src_vec`, `chain_deriv`; the per-edge
+       cascades of the explicit network are identified with one cascade per source unit by the comment in Population.v), so the
+       delay part of the equality is definitional; the place where the real explicit circuit differs (a delayed template edge delays the
+       template output: finding F9, predicate g_delay_post) is applied by the harness to the comparison of the two real circuits, not here;
+   (b) the weight tolerance on matrix entries: the real explicit circuit does not apply a matrix entry within weight_tol = 1e-8 of 1, the
+       Spec (and matvec) keep it; on the tie domain of the next theorem the two coincide, outside they differ by <= 1e-8 * |source|. *)
+Theorem C16_elision_identity_on_tie_domain : forall W : mat,
+  forallb (forallb (fun w => negb (near_one w) || Qceqb w 1)) W = true -> map (map elide) W = W.
+Proof. exact elide_identity_on_tie_domain. Qed.
+Print Assumptions C16_elision_identity_on_tie_domain.
+
 Theorem C16_full : C16_full_statement.
 Proof. intros N units dt rows Hwf Hu. apply pop_run_full; [vm_compute; reflexivity|exact Hwf|exact Hu]. Qed.
 Print Assumptions C16_full.
 
+(* CONDITIONAL RECORD: vacuous while the switch is true (the proof then closes by `discriminate`, the witness is not computed); it is
+   re-checked only when the switch is set back to false; what guards the repaired class today is the revert test
+   (harness/try_seed.sh fixes/fix_D<nn>.diff C16 --reverse) and the regression cases corpus/C16/R6..R14 *)
 Theorem C16_scalar_coupling_before_fix : fixed_F3 = false ->
   wf_net N_scalar_coupling = true /\ g_scalar_plain N_scalar_coupling = false /\
   pop_run unit_poly N_scalar_coupling units22 (mkq 1 4) 2 <> Some (exp_run 0 unit_poly N_scalar_coupling units22 (mkq 1 4) 2).
@@ -169,20 +185,28 @@ Theorem C16_near_one_elided_on_both_sides :
 Proof. exact near_one_elided_on_both_sides. Qed.
 Print Assumptions C16_near_one_elided_on_both_sides.
 
+(* CONDITIONAL RECORD: vacuous while the switch is true (the proof then closes by `discriminate`, the witness is not computed); it is
+   re-checked only when the switch is set back to false; what guards the repaired class today is the revert test
+   (harness/try_seed.sh fixes/fix_D<nn>.diff C16 --reverse) and the regression cases corpus/C16/R6..R14 *)
 Theorem C16_post_name_before_fix : fixed_F2 = false ->
   wf_net N_post_name = true /\ g_post_name N_post_name = false /\
   pop_run unit_poly N_post_name units22 (mkq 1 4) 2 <> Some (exp_run 0 unit_poly N_post_name units22 (mkq 1 4) 2).
 Proof. exact post_name_before_fix. Qed.
 Print Assumptions C16_post_name_before_fix.
 
-(* `_before_fix`: the classes F1 / F2 / F3 / F6 as the code was before the repairs D55 / D56 / D60;
-   each carries the hypothesis that the corresponding switch of Population.v is off and is vacuous once it is on.  The
-   witnesses stay in corpus/C16 as regression cases. *)
+(* `_before_fix`: the classes F1 / F2 / F3 / F6 as the code was before the repairs D55 / D56 / D60; each carries the hypothesis
+   that the corresponding switch of Population.v is off (the switches are global definitions, not arguments of pop_run). *)
+(* CONDITIONAL RECORD: vacuous while the switch is true (the proof then closes by `discriminate`, the witness is not computed); it is
+   re-checked only when the switch is set back to false; what guards the repaired class today is the revert test
+   (harness/try_seed.sh fixes/fix_D<nn>.diff C16 --reverse) and the regression cases corpus/C16/R6..R14 *)
 Theorem C16_dup_sources_before_fix : fixed_F1 = false ->
   wf_net N_dup_sources = true /\ g_distinct_sources N_dup_sources = false /\ pop_run unit_poly N_dup_sources units22 (mkq 1 4) 2 = None.
 Proof. exact dup_sources_before_fix. Qed.
 Print Assumptions C16_dup_sources_before_fix.
 
+(* CONDITIONAL RECORD: vacuous while the switch is true (the proof then closes by `discriminate`, the witness is not computed); it is
+   re-checked only when the switch is set back to false; what guards the repaired class today is the revert test
+   (harness/try_seed.sh fixes/fix_D<nn>.diff C16 --reverse) and the regression cases corpus/C16/R6..R14 *)
 Theorem C16_alias_before_fix : fixed_F6 = false ->
   wf_net N_alias = true /\ g_no_alias N_alias = false /\ pop_run unit_poly N_alias units22 (mkq 1 4) 2 = None.
 Proof. exact alias_before_fix. Qed.
@@ -190,12 +214,18 @@ Print Assumptions C16_alias_before_fix.
 
 (* the loud shape classes (repaired by D92, D93): a coupling template on a one-row / one-column matrix, a delayed
    1 x 1 matrix — the population circuit raises while the switch is off *)
+(* CONDITIONAL RECORD: vacuous while the switch is true (the proof then closes by `discriminate`, the witness is not computed); it is
+   re-checked only when the switch is set back to false; what guards the repaired class today is the revert test
+   (harness/try_seed.sh fixes/fix_D<nn>.diff C16 --reverse) and the regression cases corpus/C16/R6..R14 *)
 Theorem C16_coupling_shape_before_fix : fixed_F5 = false ->
   wf_net N_coupling_shape = true /\ g_coupling_shape N_coupling_shape = false /\
   pop_run unit_poly N_coupling_shape [st1 [mkq 1 2; mkq 1 1] [0; 0]; st1 (mkq 1 1 :: nil) (0 :: nil)] (mkq 1 4) 2 = None.
 Proof. exact coupling_shape_before_fix. Qed.
 Print Assumptions C16_coupling_shape_before_fix.
 
+(* CONDITIONAL RECORD: vacuous while the switch is true (the proof then closes by `discriminate`, the witness is not computed); it is
+   re-checked only when the switch is set back to false; what guards the repaired class today is the revert test
+   (harness/try_seed.sh fixes/fix_D<nn>.diff C16 --reverse) and the regression cases corpus/C16/R6..R14 *)
 Theorem C16_delay_1x1_before_fix : fixed_F7 = false ->
   wf_net N_delay_1x1 = true /\ g_delay_shape N_delay_1x1 = false /\
   pop_run unit_poly N_delay_1x1 [st1 (mkq 1 2 :: nil) (0 :: nil); st1 (mkq 1 1 :: nil) (0 :: nil)] (mkq 1 4) 2 = None.
